@@ -112,10 +112,14 @@ func (v *collator_[V]) GetMaximum() int {
 // Public
 
 func (v *collator_[V]) CompareValues(first V, second V) bool {
+	// The traversal depth is zero between calls, also after a panic.
+	defer func() { v.depth_ = 0 }()
 	return v.compareValues(ref.ValueOf(first), ref.ValueOf(second))
 }
 
 func (v *collator_[V]) RankValues(first V, second V) Rank {
+	// The traversal depth is zero between calls, also after a panic.
+	defer func() { v.depth_ = 0 }()
 	return v.rankValues(ref.ValueOf(first), ref.ValueOf(second))
 }
 
